@@ -17,7 +17,7 @@ def n_cases(tier):
 
 
 def gen_case(rng, tier, idx):
-    return arb.gen_arb(rng, tier)
+    return arb.gen_arb(rng, tier, idx)
 
 
 def run_case(case):
